@@ -52,8 +52,13 @@ Inductive bexp :=
 | BPa (a : pa)
 | BIf (c : pred) (a b : pa)
 | BBin (op : string) (x y : bexp).
-(* the terminal over the filtered collection: Count() or Select(lambda x: body).Sum() *)
-Inductive aggk := ACount | ASum (body : bexp).
+(* the terminal over the filtered collection: Count(), or Select(lambda x: body).Aggregate(seed, lambda a, v: a OP v)
+   with OP one of + - * and seed an int or floating literal; Sum() is Aggregate(0, lambda a, v: a + v) *)
+Inductive seed := SdInt (z : Z) | SdDbl (text : string) (n : Z) (d : positive).
+Inductive aggk := ACount | AAgg (sd : seed) (op : string) (body : bexp).
+Definition ASum (body : bexp) : aggk := AAgg (SdInt 0) "+" body.
+Definition seed_type (s : seed) : string := match s with SdInt _ => "int" | SdDbl _ _ _ => "double" end.
+Definition seed_exp (s : seed) : cexp := match s with SdInt z => CInt z | SdDbl t n d => CDbl t n d end.
 Record cnt := { k_coll : collref; k_guard : guard; k_agg : aggk }.
 
 (* static type of a predicate-level arithmetic expression: methods without declaration are double *)
@@ -75,10 +80,16 @@ Fixpoint btype (e : bexp) : string :=
   | BBin _ x y => if String.eqb (btype x) "int" && String.eqb (btype y) "int" then "int" else "double"
   end.
 Fixpoint nifs (e : bexp) : nat := match e with BPa _ => 0 | BIf _ _ _ => 1 | BBin _ x y => nifs x + nifs y end.
-(* accumulator type: int for Count; for Sum the type of the summand (most_accurate_type [int, summand]) *)
-Definition agg_type (k : cnt) : string :=
-  match k_agg k with ACount => "int" | ASum body => btype body end.
-Definition agg_nifs (g : aggk) : nat := match g with ACount => 0 | ASum body => nifs body end.
+(* accumulator type: int for Count; else the wider of the seed's type and the summand's (most_accurate_type) *)
+Definition aggk_type (g : aggk) : string :=
+  match g with
+  | ACount => "int"
+  | AAgg sd _ body => if String.eqb (seed_type sd) "int" && String.eqb (btype body) "int" then "int" else "double"
+  end.
+Definition agg_type (k : cnt) : string := aggk_type (k_agg k).
+Definition agg_nifs (g : aggk) : nat := match g with ACount => 0 | AAgg _ _ body => nifs body end.
+Definition agg_op (g : aggk) : string := match g with ACount => "+" | AAgg _ op _ => op end.
+Definition agg_init (g : aggk) : cexp := match g with ACount => CInt 0 | AAgg sd _ _ => seed_exp sd end.
 (* event-level operators: + - * and the six comparisons *)
 Inductive bop := OAdd | OSub | OMul | OLt | OLe | OGt | OGe | OEq | ONe.
 Definition op_str (o : bop) : string :=
@@ -171,20 +182,20 @@ Definition agg_name (n : nat) : string := nm "aggResult" (S (S n)).   (* used at
 Definition kagg (k : cnt) (n : nat) : string := agg_name (n + gsize (k_guard k) + agg_nifs (k_agg k)).
 
 Definition agg_summand (iv : string) (arrow : bool) (g : aggk) (m : nat) : cexp :=
-  match g with ACount => CInt 1 | ASum body => bx iv arrow body m end.
-Definition agg_ds (g : aggk) (m : nat) : list decl := match g with ACount => [] | ASum body => bdecls body m end.
+  match g with ACount => CInt 1 | AAgg _ _ body => bx iv arrow body m end.
+Definition agg_ds (g : aggk) (m : nat) : list decl := match g with ACount => [] | AAgg _ _ body => bdecls body m end.
 Definition agg_pre (iv : string) (arrow : bool) (g : aggk) (m : nat) : stmts :=
-  match g with ACount => SNil | ASum body => bpre iv arrow body m end.
-Definition agg_update (agg : string) (summand : cexp) : stmt := SSet agg None (CBin "+" (CVar agg) summand).
+  match g with ACount => SNil | AAgg _ _ body => bpre iv arrow body m end.
+Definition agg_update (agg : string) (op : string) (summand : cexp) : stmt := SSet agg None (CBin op (CVar agg) summand).
 
 Definition tcount_decls (k : cnt) (n : nat) : list decl :=
   [{| d_type := c_ctype (k_coll k); d_name := cv_name k n; d_init := None |};
-   {| d_type := agg_type k; d_name := kagg k n; d_init := Some (CInt 0) |}].
+   {| d_type := agg_type k; d_name := kagg k n; d_init := Some (agg_init (k_agg k)) |}].
 Definition tcount_loop (k : cnt) (n : nat) : stmt :=
   SFor (iv_name n) (CDeref (CVar (cv_name k n)))
        (loop_block (iv_name n) (c_arrow (k_coll k)) (k_guard k) n (agg_ds (k_agg k) (n + gsize (k_guard k)))
                    (app_stmts (agg_pre (iv_name n) (c_arrow (k_coll k)) (k_agg k) (n + gsize (k_guard k)))
-                              (one_stmt (agg_update (kagg k n) (agg_summand (iv_name n) (c_arrow (k_coll k)) (k_agg k) (n + gsize (k_guard k))))))).
+                              (one_stmt (agg_update (kagg k n) (agg_op (k_agg k)) (agg_summand (iv_name n) (c_arrow (k_coll k)) (k_agg k) (n + gsize (k_guard k))))))).
 Definition tcount_stmts (idiom : string) (k : cnt) (n : nat) : stmts :=
   SCons (SFetch idiom (cv_name k n) (c_ctype (k_coll k)) (c_bank (k_coll k))
                 (fetch_lines idiom (c_ctype (k_coll k)) (c_bank (k_coll k))))
@@ -374,10 +385,12 @@ Definition gpasses (ev : event) (v : value) (g : guard) : res bool :=
   | GOne p => dpred ev v p
   | GBool is_and p ps => rdo b <- dpred ev v p; bo_rest ev v is_and b ps
   end.
-(* one step of the aggregate on a passing element: acc + 1, or acc + body(v), stored in the accumulator's type *)
+(* one step of the aggregate on a passing element: acc + 1, or acc OP body(v), stored in the accumulator's type *)
+Definition seed_val (s : seed) : value := match s with SdInt z => VInt z | SdDbl _ n d => VDbl (Qred (n # d)%Q) end.
+Definition agg_seed (g : aggk) : value := match g with ACount => VInt 0 | AAgg sd _ _ => seed_val sd end.
 Definition agg_step (ev : event) (ty : string) (g : aggk) (acc v : value) : res value :=
-  rdo x <- match g with ACount => ROk (VInt 1) | ASum body => db ev v body end;
-  rdo s <- arith "+" acc x;
+  rdo x <- match g with ACount => ROk (VInt 1) | AAgg _ _ body => db ev v body end;
+  rdo s <- arith (agg_op g) acc x;
   ROk (conv ty s).
 Fixpoint agg_loop (ev : event) (ty : string) (g : aggk) (ps : guard) (l : list value) (acc : value) : res value :=
   match l with
@@ -388,7 +401,7 @@ Fixpoint agg_loop (ev : event) (ty : string) (g : aggk) (ps : guard) (l : list v
 Definition dcount (ev : event) (k : cnt) : res value :=
   match assoc_ss (c_ctype (k_coll k), c_bank (k_coll k)) (ev_colls ev) with
   | None => RFault FRetrieve
-  | Some (VVec l) => agg_loop ev (agg_type k) (k_agg k) (k_guard k) l (conv (agg_type k) (VInt 0))
+  | Some (VVec l) => agg_loop ev (agg_type k) (k_agg k) (k_guard k) l (conv (agg_type k) (agg_seed (k_agg k)))
   | Some VNull => RFault FNullDeref
   | Some _ => RStuck (KType "the bank does not hold a collection")
   end.
@@ -505,12 +518,24 @@ Definition d_guard (ps : list sexp) : option guard :=
   | [p] => option_map GOne (d_pred p)
   | _ => None
   end.
+Definition d_seed (s : sexp) : option seed :=
+  match s with
+  | SList [SAtom "int"; z] => option_map SdInt (d_Z z)
+  | SList [SAtom "dbl"; SAtom t; n; d] =>
+      match d_Z n, d_Z d with Some n', Some (Zpos d') => Some (SdDbl t n' d') | _, _ => None end
+  | _ => None
+  end.
 Definition d_cnt (s : sexp) : option cnt :=
   match s with
   | SList [SAtom base; SAtom ct; SAtom bank; ar; SList ps; g] =>
       match d_bool ar, d_guard ps, (match g with
                                           | SList [SAtom "count"] => Some ACount
                                           | SList [SAtom "sum"; b] => option_map ASum (d_bexp b)
+                                          | SList [SAtom "agg"; sd; SAtom op; b] =>
+                                              if String.eqb op "+" || String.eqb op "-" || String.eqb op "*"
+                                              then match d_seed sd, d_bexp b with
+                                                   | Some sd', Some b' => Some (AAgg sd' op b') | _, _ => None end
+                                              else None
                                           | _ => None end) with
       | Some ar', Some ps', Some g' =>
           Some {| k_coll := {| c_base := base; c_ctype := ct; c_bank := bank; c_arrow := ar' |}; k_guard := ps'; k_agg := g' |}
